@@ -22,6 +22,7 @@ EXPLANATION = (
     "The head/tail offsets as numbers for concrete type trees are not enumerated."
     ' Also evaluated here: fork-copy completeness (C20 R20.1) for the per-path length substitution, and that the candidates of every created calldata are registered where it is created.'
     ' Round 4: the validating and the extracting pattern of --array-lengths accept the same parameter names (C18 R18.6).'
+    ' Round 5: size candidates are registered on the path after extend_path (R12.8).'
 )
 ASSUMPTIONS = ["the Solidity ABI specification (static vs dynamic types, head/tail layout)"]
 
